@@ -496,7 +496,7 @@ class Directory(object):
                                agent: AgentName=None):
         try:
             self._computations_data.pop(computation)
-            self.discovery.unregister_computation(computation)
+            self.discovery.unregister_computation(computation, publish=False)
         except (KeyError, UnknownComputation):
             return
         # notify interested agents
@@ -530,7 +530,7 @@ class Directory(object):
 
     def unregister_replica(self, replica: ComputationName, agent: AgentName):
         try:
-            self.discovery.unregister_replica(replica, agent)
+            self.discovery.unregister_replica(replica, agent, publish=False)
         except (KeyError, UnknownComputation):
             return
         # notify interested agents
